@@ -40,7 +40,9 @@ def check(prog: Program, tier: str) -> Result:
             "violates the property by construction unless it is literal-aware: (i) the transformed slice is tested to "
             "be whitespace only, (ii) the operand is a statement range handed to black, or (iii) the function computes "
             "the character ranges of string literals and the edit is control-dependent on a non-overlap test with "
-            "them. Sites are keyed by (function, callee, operand) - not by regex text. Not decided: correctness of the "
+            "them. Sites are keyed by (function, callee, operand) - not by regex text. R11.2 replacement code is re-indented line by line in "
+            "_do_rewrite: the recogniser of multi-line literals accepts all 50 spellings of a triple-quoted literal (test expression evaluated "
+            "on every spelling by sa/strexpr.py) and the exempted line indexes cover all continuation lines. Not decided: correctness of the "
             "literal-aware stages themselves (black's equivalence)."),
         rule_text="instances = text-transformation calls in functions reachable from format_code; non-trivial = operand is the whole module text",
     )
@@ -99,8 +101,118 @@ def check(prog: Program, tier: str) -> Result:
     # literal-aware stages (listed, with the idiom that discharges them)
     _literal_aware(prog, res, tf, reach)
     res.floors["R11.1"] = 8
+    _r11_2(prog, res)
+    res.floors["R11.2"] = 1
     res.analysed.update({"transformation_calls": n_calls, "functions_reachable_from_format_code": len(reach)})
     return res
+
+
+# ------------------------------------------------------------------------------------------------ R11.2
+STRING_PREFIXES = sorted({"".join(p) for base in ("", "r", "u", "b", "f", "br", "rb", "fr", "rf")
+                          for p in __import__("itertools").product(*[(c.lower(), c.upper()) for c in base])})
+
+
+def _r11_2(prog: Program, res: Result) -> None:
+    """Replacement code is re-indented line by line when it is spliced in (processing._do_rewrite; line wrapping and
+    every node rewrite go through it).  The lines that BEGIN INSIDE a multi-line string literal must be exempt, or the
+    value of the literal changes.  Decided: (a) the test that recognises such literals accepts every spelling of a
+    triple-quoted literal Python knows (all prefixes in both cases, both quote characters) - the test expression is
+    read from the source and evaluated on all 50 spellings by sa/strexpr.py; (b) the exempted line indexes cover all
+    continuation lines lineno .. end_lineno-1 (0-based) of the literal."""
+    from .. import strexpr
+    fn = prog.funcs.get(("processing", "_do_rewrite"))
+    if fn is None:
+        raise AnalysisError("anchor processing._do_rewrite not found")
+    stores = []
+    for n in walk_own(fn.node):
+        if isinstance(n, ast.Assign) and len(n.targets) == 1 and isinstance(n.targets[0], ast.Subscript) \
+                and isinstance(n.targets[0].value, ast.Name) and "indent" in n.targets[0].value.id \
+                and isinstance(n.value, ast.Constant) and n.value.value == 0:
+            stores.append(n)
+    if not stores:
+        res.undecided("R11.2", fn.loc(), fn.fq, "exemption of literal continuation lines from re-indentation",
+                      "no `indents[..] = 0` found: protection written in an unrecognised way")
+        return
+    from ..model import ancestors
+    for st in stores:
+        anc = list(ancestors(st))
+        rloop = next((a for a in anc if isinstance(a, ast.For) and isinstance(a.iter, ast.Call) and norm(a.iter.func) == "range"), None)
+        nloop = next((a for a in anc if isinstance(a, ast.For) and a is not rloop and "walk" in norm(a.iter)), None)
+        guards = [a for a in anc if isinstance(a, ast.If) and (nloop is None or a in list(ast.walk(nloop)))]
+        # ---- (a) the recogniser
+        if nloop is None:
+            res.undecided("R11.2", fn.loc(st), fn.fq, "recogniser of multi-line literals", "loop over the literal nodes not found")
+        else:
+            code_var = None
+            pre: List[ast.Assign] = []
+            for s_ in nloop.body:
+                if isinstance(s_, ast.Assign) and len(s_.targets) == 1 and isinstance(s_.targets[0], ast.Name):
+                    if isinstance(s_.value, ast.Call) and norm(s_.value.func).endswith("get_code"):
+                        code_var = s_.targets[0].id
+                    else:
+                        pre.append(s_)
+            if not guards:
+                res.ok("R11.2", fn.loc(st), fn.fq, "recogniser of multi-line literals", "every str / f-string node is exempted (no spelling test)")
+            elif code_var is None:
+                res.undecided("R11.2", fn.loc(guards[0]), fn.fq, "recogniser of multi-line literals", "the text of the literal is not taken with get_code")
+            else:
+                missed, err = [], None
+                for q in ("\'\'\'", '"""'):
+                    for p in STRING_PREFIXES:
+                        env = {code_var: f"{p}{q}a\n  b\nc{q}"}
+                        try:
+                            for a_ in pre:
+                                try:
+                                    env[a_.targets[0].id] = strexpr.ev(a_.value, env)
+                                except strexpr.Unsupported:
+                                    pass
+                            if not all(strexpr.ev(g.test, env) for g in guards):
+                                missed.append(f"{p}{q}")
+                        except strexpr.Unsupported as error:
+                            err = str(error)
+                            break
+                    if err:
+                        break
+                text = f"recogniser of multi-line literals: {short(guards[0].test, 70)}"
+                if err:
+                    res.undecided("R11.2", fn.loc(guards[0]), fn.fq, text, f"test not evaluable ({err})")
+                else:
+                    res.decide(not missed, "R11.2", fn.loc(guards[0]), fn.fq, "recogniser of multi-line literals",
+                               f"accepts all {2 * len(STRING_PREFIXES)} spellings of a triple-quoted literal" if not missed else
+                               f"{len(missed)} spellings of a triple-quoted literal are not recognised ({', '.join(missed[:8])} ...): their continuation lines "
+                               "are re-indented with the code around them, which changes the value of the literal")
+        # ---- (b) the exempted lines
+        if rloop is None or not isinstance(rloop.target, ast.Name):
+            res.undecided("R11.2", fn.loc(st), fn.fq, "exempted line indexes", "not a `for i in range(a, b): indents[f(i)] = 0` loop")
+            continue
+
+        class _Sub(ast.NodeTransformer):
+            def visit_Attribute(self, node):
+                if node.attr == "lineno":
+                    return ast.copy_location(ast.Name(id="__lineno", ctx=ast.Load()), node)
+                if node.attr == "end_lineno":
+                    return ast.copy_location(ast.Name(id="__end", ctx=ast.Load()), node)
+                return node
+        import copy
+        rargs = [_Sub().visit(copy.deepcopy(a)) for a in rloop.iter.args]
+        idx = _Sub().visit(copy.deepcopy(st.targets[0].slice))
+        bad = None
+        try:
+            for lineno, end in ((1, 2), (3, 7), (5, 6), (2, 9), (4, 4)):
+                env = {"__lineno": lineno, "__end": end}
+                vals = [strexpr.ev(a, env) for a in rargs]
+                covered = {strexpr.ev(idx, dict(env, **{rloop.target.id: v})) for v in range(*vals)}
+                need = set(range(lineno, end))      # 0-based indexes of the lines after the first one
+                if not need <= covered:
+                    bad = (lineno, end, sorted(need - covered))
+                    break
+        except (strexpr.Unsupported, TypeError) as error:
+            res.undecided("R11.2", fn.loc(st), fn.fq, "exempted line indexes", f"index arithmetic not evaluable ({error})")
+            continue
+        res.decide(bad is None, "R11.2", fn.loc(rloop), fn.fq, "exempted line indexes",
+                   "all continuation lines (0-based lineno .. end_lineno-1) of the literal are exempted" if bad is None else
+                   f"for a literal on lines {bad[0]}..{bad[1]} the continuation line(s) with 0-based index {bad[2]} are not exempted: "
+                   "they get the indentation of the surrounding code prepended, inside the literal")
 
 
 def _inverse_pair(prog: Program, tf: TextFlow, fn: Func, kinds, c: ast.Call, callee: str) -> Tuple[bool, str]:
@@ -206,6 +318,18 @@ def _literal_aware(prog: Program, res: Result, tf: TextFlow, reach) -> None:
 from ..selftest import Variant  # noqa: E402
 
 VARIANTS = [
+    Variant("literal-recogniser-back-to-a-table", "FIRE", "processing",
+            "            quote = node_code.lstrip(\"bBfFrRuU\")[:3]  # Any string prefix, e.g. rb, F, Rf, u\n            if quote in (\"\'\'\'\", \'\"\"\"\') and node_code.endswith(quote):\n",
+            "            if any(\n                node_code.startswith(prefix) and node_code.endswith(prefix[-3:])\n                for prefix in (\"b\'\'\'\", \"r\'\'\'\", \"f\'\'\'\", \"\'\'\'\", \'b\"\"\"\', \'r\"\"\"\', \'f\"\"\"\', \'\"\"\"\')\n            ):\n", "R11.2"),
+    Variant("literal-last-line-not-exempted", "FIRE", "processing",
+            "                for lineno in range(node.lineno, node.end_lineno):\n                    indents[lineno] = 0\n",
+            "                for lineno in range(node.lineno + 1, node.end_lineno):\n                    indents[lineno - 1] = 0\n", "R11.2"),
+    Variant("literal-recogniser-lowercased", "SILENT", "processing",
+            "            quote = node_code.lstrip(\"bBfFrRuU\")[:3]  # Any string prefix, e.g. rb, F, Rf, u\n",
+            "            quote = node_code.lower().lstrip(\"bfru\")[:3]\n"),
+    Variant("literal-lines-zero-based-loop", "SILENT", "processing",
+            "                for lineno in range(node.lineno, node.end_lineno):\n                    indents[lineno] = 0\n",
+            "                for lineno in range(node.lineno + 1, node.end_lineno + 1):\n                    indents[lineno - 1] = 0\n"),
     Variant("new-whole-text-replace", "FIRE", "main", "    source = fixes.sort_imports(source)\n\n    source = fixes.fix_line_lengths", "    source = fixes.sort_imports(source)\n    source = source.replace(\"\\t\", \"    \")\n\n    source = fixes.fix_line_lengths", "R11.1", "str.replace"),
     Variant("new-regex-stage-in-helper", "FIRE", "fixes",
             "def fix_too_many_blank_lines(source: str) -> str:\n", "def _strip_form_feeds(source: str) -> str:\n    return re.sub(r\"\\f\", \"\", source)\n\n\ndef fix_too_many_blank_lines(source: str) -> str:\n    source = _strip_form_feeds(source)\n", "R11.1", "_strip_form_feeds"),
@@ -220,11 +344,12 @@ VARIANTS = [
 
 META = {
     "design_ref": "DESIGN.md section 3, C11",
-    "technique": "site enumeration of text transformations + text-provenance dataflow (whole text vs. node slice) + path-condition check of the literal-aware idioms",
+    "technique": "site enumeration of text transformations + text-provenance dataflow (whole text vs. node slice) + path-condition check of the literal-aware idioms + exhaustive evaluation of the literal recogniser (expression interpreter over all spellings)",
     "level_text": ("Decides on the current source which layout stages apply a token-blind transformation to the whole module "
                    "text (each such site alters string-literal contents by construction and is a finding keyed by function, "
-                   "callee and operand) and that the remaining stages are literal-aware by one of three checked idioms. The "
-                   "six sites of the pinned tree are known findings (no small repair exists); any new site is a violation. It "
+                   "callee and operand) and that the remaining stages are literal-aware by one of four checked idioms; that "
+                   "re-indentation of replacement code exempts the continuation lines of every triple-quoted literal (all 50 spellings). "
+                   "Three site keys of the pinned tree are known findings (no small repair exists); any new site is a violation. It "
                    "does not decide the correctness of black or of the literal-aware stages themselves."),
     "level_note": "Trusted: CPython ast; provenance rules and seeds of sa/textflow.py; reachability from format_code (sa/callgraph.py).",
 }
